@@ -231,4 +231,72 @@ Section WithFloat.
     destruct (read_qty_print (go_vol F g) dimVolume Hvol) as (v' & Ev & Qv). rewrite Ev, read_bc_written.
     eexists. split; [reflexivity|]. repeat split; try reflexivity; try assumption; apply Qv.
   Qed.
+  (* ---- graph spaces ---- *)
+  Definition node_equiv (n n' : node_obj F) : Prop := qty_equiv (nd_vol F n) (nd_vol F n') /\ nd_env F n = nd_env F n' /\ nd_units F n = nd_units F n'.
+  Definition edge_equiv (e e' : edge_obj F) : Prop :=
+    ed_i F e = ed_i F e' /\ ed_j F e = ed_j F e' /\ qty_equiv (ed_sf F e) (ed_sf F e') /\ qty_equiv (ed_ds F e) (ed_ds F e') /\ ed_units F e = ed_units F e'.
+  Definition graph_equiv (g g' : graph_obj F) : Prop :=
+    Forall2 node_equiv (gr_nodes F g) (gr_nodes F g') /\ Forall2 edge_equiv (gr_edges F g) (gr_edges F g') /\ gr_units F g = gr_units F g'.
+  Definition wf_graph_obj (g : graph_obj F) : Prop :=
+    (forall n, In n (gr_nodes F g) -> snd (snd (nd_vol F n)) = dimVolume) /\
+    (forall e, In e (gr_edges F g) -> snd (snd (ed_sf F e)) = dimSurface /\ snd (snd (ed_ds F e)) = dimLength).
+
+  Lemma usys_same_eq a b : usys_same a b = true -> a = b.
+  Proof.
+    destruct a as [s t q], b as [s' t' q']. unfold usys_same. cbn [us ut uq]. rewrite !andb_true_iff. intros [[A B] C].
+    assert (s = s') by (destruct s, s'; try reflexivity; vm_compute in A; discriminate).
+    assert (t = t') by (destruct t, t'; try reflexivity; vm_compute in B; discriminate).
+    assert (q = q') by (destruct q, q'; try reflexivity; vm_compute in C; discriminate).
+    subst. reflexivity.
+  Qed.
+
+  Lemma units_field_written parent u :
+    read_units_field parent (units_if_differs wr u parent) = Ok u.
+  Proof.
+    unfold units_if_differs. destruct (usys_same u parent) eqn:E.
+    - apply usys_same_eq in E. subst. reflexivity.
+    - unfold read_units_field. pose proof (usys_roundtrip u) as U. unfold write_usys in U |- *. exact U.
+  Qed.
+
+  Lemma node_roundtrip parent (n : node_obj F) : snd (snd (nd_vol F n)) = dimVolume ->
+    exists n', read_node F parse_float zero one parent (write_node F print_float wr parent n) = Ok n' /\ node_equiv n n'.
+  Proof.
+    intros Hv. unfold read_node, write_node.
+    assert (Hsc : wf_schema schema_node = true /\ forallb (fun syn : list str => match syn with [] => false | _ => true end) schema_node = true
+                  /\ length schema_node = 3%nat) by (vm_compute; repeat split).
+    destruct Hsc as (Hwf & Hne & Hl). unfold wr at 1.
+    rewrite (write_then_read jv schema_node _ Hwf) by (try (cbn [length]; rewrite Hl; reflexivity); apply nonempty_of_forallb; exact Hne).
+    rewrite units_field_written. destruct (read_qty_print (nd_vol F n) dimVolume Hv) as (v' & Ev & Qv). rewrite Ev.
+    eexists. split; [reflexivity|]. repeat split; try reflexivity; apply Qv.
+  Qed.
+
+  Lemma edge_roundtrip parent (e : edge_obj F) : snd (snd (ed_sf F e)) = dimSurface -> snd (snd (ed_ds F e)) = dimLength ->
+    exists e', read_edge F parse_float zero one parent (write_edge F print_float wr parent e) = Ok e' /\ edge_equiv e e'.
+  Proof.
+    intros Hs Hd. unfold read_edge, write_edge.
+    assert (Hsc : wf_schema schema_edge = true /\ forallb (fun syn : list str => match syn with [] => false | _ => true end) schema_edge = true
+                  /\ length schema_edge = 4%nat) by (vm_compute; repeat split).
+    destruct Hsc as (Hwf & Hne & Hl). unfold wr at 1.
+    rewrite (write_then_read jv schema_edge _ Hwf) by (try (cbn [length]; rewrite Hl; reflexivity); apply nonempty_of_forallb; exact Hne).
+    rewrite units_field_written.
+    destruct (read_qty_print (ed_sf F e) dimSurface Hs) as (s' & Es & Qs). destruct (read_qty_print (ed_ds F e) dimLength Hd) as (d' & Ed & Qd).
+    rewrite Es, Ed. eexists. split; [reflexivity|]. repeat split; try reflexivity; try apply Qs; apply Qd.
+  Qed.
+
+  Theorem graph_roundtrip parent (g : graph_obj F) : wf_graph_obj g ->
+    exists g', read_graph F parse_float zero one parent (write_graph F print_float wr g) = Ok g' /\ graph_equiv g g'.
+  Proof.
+    intros (Hn & He). unfold read_graph, write_graph.
+    assert (Hsc : wf_schema schema_graph = true /\ forallb (fun syn : list str => match syn with [] => false | _ => true end) schema_graph = true
+                  /\ length schema_graph = 4%nat) by (vm_compute; repeat split).
+    destruct Hsc as (Hwf & Hne & Hl). unfold wr at 1.
+    rewrite (write_then_read jv schema_graph _ Hwf) by (try (cbn [length]; rewrite Hl; reflexivity); apply nonempty_of_forallb; exact Hne).
+    unfold read_units_field. assert (U : read_usys (write_usys wr (gr_units F g)) = Ok (gr_units F g)) by apply usys_roundtrip.
+    unfold write_usys in U |- *. rewrite U.
+    destruct (read_list_map (write_node F print_float wr (gr_units F g)) (read_node F parse_float zero one (gr_units F g)) node_equiv (gr_nodes F g))
+      as (ns & Ens & Rns); [intros n Hin; apply node_roundtrip; apply Hn; exact Hin|].
+    destruct (read_list_map (write_edge F print_float wr (gr_units F g)) (read_edge F parse_float zero one (gr_units F g)) edge_equiv (gr_edges F g))
+      as (es & Ees & Res); [intros e Hin; apply edge_roundtrip; apply He; exact Hin|].
+    rewrite Ens, Ees. eexists. split; [reflexivity|]. repeat split; assumption.
+  Qed.
 End WithFloat.
